@@ -142,8 +142,13 @@ pub async fn send_appointment(
                 r.start_block,
                 r.signature.clone(),
             );
+            // The signature is picked by the tower, so it may not even be decodable. Treat that as a malformed response.
             let recovered_id = TowerId(
-                cryptography::recover_pk(&receipt.to_vec(), &receipt.signature().unwrap()).unwrap(),
+                cryptography::recover_pk(&receipt.to_vec(), &r.signature).map_err(|_| {
+                    RequestError::DeserializeError(
+                        "Cannot recover the tower id from the appointment receipt signature".to_owned(),
+                    )
+                })?,
             );
             if recovered_id == tower_id {
                 Ok((r, receipt))
